@@ -4,6 +4,7 @@ import Proofs.C01ConcLaws
 import Proofs.C01Tables
 import Proofs.C01StmtSim
 import Proofs.C01Witness
+import Proofs.C01FramesCor
 /-!
 # C01 — compiled execution preserves the meaning of the parsed program
 
@@ -146,6 +147,73 @@ theorem gen_matches_ops :
      ArithOp.all.map (fun op => vmAugOf (augOf op)) = ArithOp.all.map (·.goOp)) :=
   ⟨gen_matches_binaryOp, gen_matches_augOp⟩
 
+
+/-! ### user functions and call frames -/
+
+/-- the concrete integer/string semantics as a base semantics with `g` global arrays -/
+def baseC (g : Nat) : Base where
+  S := semC false
+  arrCount w := max g w.arrays.length
+  arrPush w := { w with arrays := Conc.setNth w.arrays (max g w.arrays.length) [] }
+  arrTrunc n w := { w with arrays := w.arrays.take n }
+
+/-- **compile_call_correct** — programs with user functions. `FS B FT n` is the direct tree semantics with frames (scalar
+arguments by value, missing ones null, arrays by reference, fresh local arrays, private frame, depth limit), `RBig` the VM
+with frames exactly as `CallUser` of vm.go: the frame is the slice of the value stack holding the pushed arguments and
+`Nulls`, locals are those slots, the callee runs as a nested `execute`, on return the slots are popped and the result
+pushed. For every function table whose bodies are well-formed, every block, every call-nesting fuel and statement fuel:
+normal completion, `next` and `exit` of the tree semantics are reproduced by the VM with the same world. Recursion is
+covered (induction on the call fuel). `next` / `exit` from INSIDE a function body are outside the model. -/
+theorem compile_call_correct {B : Base} (FT : FunTable) (L : Laws B.S) (M : StmtLaws B.S) (hFT : ∀ fn ∈ FT, fn.body.WF)
+    (n m : Nat) (p : Stmt) (hp : p.WF) (w : B.S.W) :
+    (∀ fw', exec (FS B FT n) m p (topFrame B, w) = some (.normal fw') →
+      RBig B FT (cStmt 0 0 p) ⟨0, [], topInfo, w⟩ (.normal [] (fw' : FW B).2)) ∧
+    (∀ fw', exec (FS B FT n) m p (topFrame B, w) = some (.next fw') →
+      RBig B FT (cStmt 0 0 p) ⟨0, [], topInfo, w⟩ (.next (fw' : FW B).2)) ∧
+    (∀ fw', exec (FS B FT n) m p (topFrame B, w) = some (.exit fw') →
+      RBig B FT (cStmt 0 0 p) ⟨0, [], topInfo, w⟩ (.exit (fw' : FW B).2)) :=
+  GoawkModel.C01.compile_call_correct FT L M hFT n m p hp w
+
+/-- the refinement behind it, for code placed anywhere and any stack below the frame: every run of the VM over the framed
+semantics (calls as one step) is a run of the VM with frames on the value stack (calls as nested activations) -/
+theorem vm_frames_refine {B : Base} (FT : FunTable) (L : Laws B.S) (M : StmtLaws B.S) (hFT : ∀ fn ∈ FT, fn.body.WF) (n : Nat) :
+    Refines B FT n := refines_all FT L M hFT n
+
+/-- `call_locals_fresh`: the callee's frame is exactly the evaluated arguments followed by nulls — on every call, whatever
+ran before; together with `compile_call_correct` the compiled code's `Nulls` + frame slice give the same frame. -/
+theorem call_locals_fresh {B : Base} (FT : FunTable) (n f nsc : Nat) (args : List Expr) (refs : List (AScope × Nat)) (fw : FW B) :
+    eval (FS B FT (n + 1)) (.call f nsc args refs) fw =
+      (evalList (FS B FT (n + 1)) args fw).bind fun (r : List B.S.V × FW B) =>
+        if r.1.length ≤ nsc then
+          callBody B FT (callN B FT n) n f ((r.1 : List B.S.V) ++ List.replicate (nsc - r.1.length) B.S.nullV) refs r.2
+        else none :=
+  eval_call_frame FT n f nsc args refs fw
+
+/-- scalars by value / private frame: a call returns the caller's frame (its locals, its local arrays' ids) unchanged -/
+theorem call_scalars_by_value {B : Base} (FT : FunTable) (n f : Nat) (vs : List B.S.V) (refs : List (AScope × Nat)) (fw : FW B)
+    (r : B.S.V × FW B) (h : callN B FT n f vs refs fw = some r) : r.2.1 = fw.1 :=
+  call_keeps_caller_frame FT n f vs refs fw r h
+
+/-- the frame slots: slot `k` of a frame lying on the stack is the `k`-th local, wherever the frame lies and whatever is
+pushed above it -/
+theorem frame_slot_read {B : Base} (tmp L below : List B.S.V) (la : List Nat) (d k : Nat) :
+    getLocal B (tmp ++ L.reverse ++ below) ⟨below.length, L.length, la, d⟩ k = L.getD k B.S.nullV :=
+  getLocal_frame tmp L below la d k
+
+/-- `interp.pushNulls` on the stack MEMORY (array + stack pointer, stale values above `sp`): fresh nulls whatever the slots
+held, and whether or not the array had to grow (the seeded change C01-m3 broke exactly this) -/
+theorem pushNulls_fresh {V} (d : V) (mem : List V) (sp num : Nat) (h : sp ≤ mem.length) :
+    (pushNullsMem d mem sp num).2 = sp + num ∧
+    ((pushNullsMem d mem sp num).1.take (pushNullsMem d mem sp num).2).reverse =
+      List.replicate num d ++ (mem.take sp).reverse :=
+  pushNullsMem_spec d mem sp num h
+
+/-- non-vacuity: the hypotheses of `compile_call_correct` hold for the concrete semantics -/
+theorem call_correct_for_semC (g : Nat) (FT : FunTable) (hFT : ∀ fn ∈ FT, fn.body.WF) (n m : Nat) (p : Stmt) (hp : p.WF) (w : CW)
+    (fw' : FW (baseC g)) (h : exec (FS (baseC g) FT n) m p (topFrame (baseC g), w) = some (.normal fw')) :
+    RBig (baseC g) FT (cStmt 0 0 p) ⟨0, [], topInfo, w⟩ (.normal [] fw'.2) :=
+  (GoawkModel.C01.compile_call_correct (B := baseC g) FT (semC_laws false) semC_stmtLaws hFT n m p hp w).1 fw' h
+
 /-- non-vacuity: the laws hold for the concrete integer/string semantics used by the behaviour correspondence -/
 theorem laws_hold_for_semC (b : Bool) : Laws (semC b) := semC_laws b
 
@@ -172,6 +240,16 @@ example : (exec (semC false) 30
   first | done | decide
 example : (Stmt.for (.expr (.assign (.var .global 0) (.num ⟨true, 0⟩))) (some (.cmp .lt (.var .global 0) (.num ⟨true, 5⟩)))
     (.expr (.incr (.var .global 0) false false)) .brk).WF := by simp [Stmt.WF, Stmt.Simple]
+-- non-vacuity of `compile_call_correct`: a recursive function with an omitted local really runs in the framed semantics:
+-- function f(n, l) { if (l != 0) return 99; l = 7; if (n <= 0) return 0; return n + f(n - 1) }  BEGIN { print f(3) }
+def recFT : FunTable := [⟨2, 0,
+  .seq (.ifThen (.cmp .ne (.var .loc 1) (.num ⟨true, 0⟩)) (.ret (some (.num ⟨true, 99⟩))))
+    (.seq (.expr (.assign (.var .loc 1) (.num ⟨true, 7⟩)))
+      (.seq (.ifThen (.cmp .le (.var .loc 0) (.num ⟨true, 0⟩)) (.ret (some (.num ⟨true, 0⟩))))
+        (.ret (some (.arith .add (.var .loc 0) (.call 0 2 [.arith .sub (.var .loc 0) (.num ⟨true, 1⟩)] []))))))⟩]
+example : (exec (FS (baseC 0) recFT 12) 10 (.print [.call 0 2 [.num ⟨true, 3⟩] []]) (topFrame (baseC 0), {})).map
+    (fun o => match o with | .normal fw => fw.2.out | _ => []) = some [54, 10] := by decide
+example : ∀ fn ∈ recFT, fn.body.WF := by simp [recFT, Stmt.WF]
 -- non-vacuity: a concrete evaluation satisfying the hypothesis of `compile_expr_correct`
 example : (eval (semC false) (.assign (.var .global 0) (.arith .add (.num ⟨true, 2⟩) (.num ⟨true, 3⟩))) {}).map (·.1) = some (CV.num 5) := by
   simp [eval, semC, Conc.arith, Conc.toNum, Conc.big]
